@@ -1,8 +1,9 @@
 pub mod c04;
+pub mod c07;
 pub mod c08;
 pub mod c11;
 pub mod c16;
 
 pub fn all() -> Vec<crate::Prop> {
-    vec![c04::prop(), c08::prop(), c11::prop(), c16::prop()]
+    vec![c04::prop(), c07::prop(), c08::prop(), c11::prop(), c16::prop()]
 }
